@@ -558,9 +558,11 @@ func (s *UDPSessionRelay) relayServerConnToNatConnGeneric(ctx context.Context, u
 			_ = uplink.natConn.SetReadDeadline(conn.ALongTimeAgo)
 		}
 
-		s.putQueuedPacket(queuedPacket)
 		packetsSent++
 		payloadBytesSent += uint64(queuedPacket.length)
+
+		// Only now give the packet back: the receive goroutine may reuse it at once.
+		s.putQueuedPacket(queuedPacket)
 	}
 
 	uplink.logger.Info("Finished relay serverConn -> natConn",
